@@ -393,7 +393,7 @@ func runPair(a caseA, e *pairEnv, k int, capture bool) (res runRes) {
 			}
 			st := srv.ConnectionState()
 			s.vers, s.suite, s.peer = st.Version, st.CipherSuite, rawsS(st)
-			s.ekm, _ = st.ExportKeyingMaterial(ekmLabel, nil, 32)
+			s.ekm = ekmGrid(st.ExportKeyingMaterial)
 			s.dataOK, s.timeout = move(srv, false, rng)
 			return
 		}
@@ -404,7 +404,7 @@ func runPair(a caseA, e *pairEnv, k int, capture bool) (res runRes) {
 		}
 		st := srv.ConnectionState()
 		s.vers, s.suite, s.peer = st.Version, st.CipherSuite, rawsG(st)
-		s.ekm, _ = st.ExportKeyingMaterial(ekmLabel, nil, 32)
+		s.ekm = ekmGrid(st.ExportKeyingMaterial)
 		s.dataOK, s.timeout = move(srv, false, rng)
 	}()
 	func() {
@@ -439,7 +439,7 @@ func runPair(a caseA, e *pairEnv, k int, capture bool) (res runRes) {
 			}
 			st := cli.ConnectionState()
 			res.c.vers, res.c.suite, res.c.peer = st.Version, st.CipherSuite, rawsS(st)
-			res.c.ekm, _ = st.ExportKeyingMaterial(ekmLabel, nil, 32)
+			res.c.ekm = ekmGrid(st.ExportKeyingMaterial)
 			res.c.dataOK, res.c.timeout = move(cli, true, rng)
 			return
 		}
@@ -450,7 +450,7 @@ func runPair(a caseA, e *pairEnv, k int, capture bool) (res runRes) {
 		}
 		st := cli.ConnectionState()
 		res.c.vers, res.c.suite, res.c.peer = st.Version, st.CipherSuite, rawsG(st)
-		res.c.ekm, _ = st.ExportKeyingMaterial(ekmLabel, nil, 32)
+		res.c.ekm = ekmGrid(st.ExportKeyingMaterial)
 		res.c.dataOK, res.c.timeout = move(cli, true, rng)
 	}()
 	select {
@@ -572,10 +572,24 @@ type capt struct {
 	r              runRes
 }
 
+// what a completed connection's gmtls end exported over the grid, with the secrets that determine it
+type kcap struct {
+	vers, suite uint16
+	master      string
+	cr, sr      []byte
+	grid        []byte
+}
+
+type capSet struct {
+	d []capt
+	k []kcap
+}
+
 func runCase(line string) string { return runCaseCap(line, nil) }
 
-// caps != nil: completing GMSSL connections between two gmtls ends are captured for the independent decoder
-func runCaseCap(line string, caps *[]capt) string {
+// caps != nil: completing GMSSL connections between two gmtls ends are captured for the independent decoder, and
+// the exported keying material of every completing connection is kept for the independent exporter (K cases)
+func runCaseCap(line string, caps *capSet) string {
 	f := strings.Split(line, " ")
 	id := f[1]
 	res, _ := hx.Guard(90*time.Second, func() string {
@@ -588,13 +602,25 @@ func runCaseCap(line string, caps *[]capt) string {
 			cls := classify(&r)
 			master0 := r.master
 			keep := func(k int, rk *runRes) {
+				if caps != nil && k < 2 && rk.cr != nil && rk.sr != nil && bytes.Equal(rk.c.ekm, rk.s.ekm) {
+					m, g := rk.master, rk.c.ekm // the grid of a gmtls end
+					if m == "" {
+						m = master0
+					}
+					if a.peer == "sg" {
+						g = rk.s.ekm
+					}
+					if m != "" && len(g) == ekmGridLen {
+						caps.k = append(caps.k, kcap{rk.c.vers, rk.c.suite, m, rk.cr, rk.sr, g})
+					}
+				}
 				if capture && rk.c.dataOK && rk.s.dataOK && rk.cr != nil && rk.sr != nil {
 					m := rk.master // a resumed connection logs nothing: it uses the first connection's master secret
 					if m == "" {
 						m = master0
 					}
 					if m != "" {
-						*caps = append(*caps, capt{rk.c.suite, a.seed + 7919*k, a.c2s, a.s2c, m, *rk})
+						caps.d = append(caps.d, capt{rk.c.suite, a.seed + 7919*k, a.c2s, a.s2c, m, *rk})
 					}
 				}
 			}
@@ -607,7 +633,7 @@ func runCaseCap(line string, caps *[]capt) string {
 			if cls != "C" && cls != "D" {
 				return "ok " + cls + " c=" + sanitize(r.c.err) + " s=" + sanitize(r.s.err)
 			}
-			ekmeq := bytes.Equal(r.c.ekm, r.s.ekm) && len(r.c.ekm) == 32
+			ekmeq := bytes.Equal(r.c.ekm, r.s.ekm) && len(r.c.ekm) == ekmGridLen
 			// further connections with the same configurations (same ticket keys, same client session cache)
 			more := "-"
 			if a.conns > 1 {
@@ -624,7 +650,7 @@ func runCaseCap(line string, caps *[]capt) string {
 					case rk.c.vers != r.c.vers || rk.c.suite != r.c.suite || certLabel(rk.c.peer) != certLabel(r.c.peer) ||
 						certLabel(rk.s.peer) != certLabel(r.s.peer):
 						more += "x"
-					case !bytes.Equal(rk.c.ekm, rk.s.ekm) || len(rk.c.ekm) != 32:
+					case !bytes.Equal(rk.c.ekm, rk.s.ekm) || len(rk.c.ekm) != ekmGridLen:
 						more += "k"
 					case !(rk.c.dataOK && rk.s.dataOK):
 						more += "d"
@@ -635,6 +661,16 @@ func runCaseCap(line string, caps *[]capt) string {
 			}
 			return fmt.Sprintf("ok %s %04x %04x %d %s %s %d %s", cls, r.c.vers, r.c.suite, b2i(ekmeq), certLabel(r.c.peer), certLabel(r.s.peer),
 				b2i(r.c.dataOK && r.s.dataOK), more)
+		case "K":
+			// replay: the exporter of a connection with these secrets (hook: ekmFromMasterSecret itself)
+			vers, _ := strconv.ParseUint(f[2], 16, 16)
+			suite, _ := strconv.ParseUint(f[3], 16, 16)
+			ms, _ := hex.DecodeString(f[4])
+			cr, _ := hex.DecodeString(f[5])
+			sr, _ := hex.DecodeString(f[6])
+			return "ok " + hx.Hex(ekmGrid(func(l string, c []byte, n int) ([]byte, error) {
+				return gmtls.VerifEKM(uint16(vers), uint16(suite), ms, cr, sr, l, c, n)
+			}))
 		case "D":
 			seed, _ := strconv.Atoi(f[3])
 			c2s, _ := strconv.Atoi(f[4])
@@ -1089,9 +1125,11 @@ func gen(seed uint64, tier string) (cases []string, pre map[int]string) {
 	return
 }
 
+var kPerKey = 6
+
 func runAll(cases []string, pre map[int]string, o *hx.Out, withCases bool) {
 	res := make([]string, len(cases))
-	caps := make([][]capt, len(cases))
+	caps := make([]capSet, len(cases))
 	var wg sync.WaitGroup
 	sem := make(chan struct{}, 10)
 	for i := range cases {
@@ -1124,11 +1162,29 @@ func runAll(cases []string, pre map[int]string, o *hx.Out, withCases bool) {
 	}
 	// every captured GMSSL connection becomes a D case for the independent decoder
 	for i := range caps {
-		for _, c := range caps[i] {
+		for _, c := range caps[i].d {
 			maxID++
 			cl, ob := dLine(maxID, c.suite, c.seed, c.c2s, c.s2c, c.master, &c.r)
 			o.Case(cl)
 			o.Obs(ob)
+		}
+	}
+	// ... and the exported keying material of the completed connections a K case for the independent exporter
+	// (at most kPerKey per version and suite, four times as many for GMSSL)
+	seen := map[string]int{}
+	for i := range caps {
+		for _, c := range caps[i].k {
+			key := fmt.Sprintf("%04x %04x", c.vers, c.suite)
+			lim := kPerKey
+			if c.vers == gmtls.VersionGMSSL { // no other implementation to compare with: more of them
+				lim *= 4
+			}
+			if seen[key]++; seen[key] > lim {
+				continue
+			}
+			maxID++
+			o.Case(fmt.Sprintf("K %d %s %s %s %s", maxID, key, c.master, hx.Hex(c.cr), hx.Hex(c.sr)))
+			o.Obs(fmt.Sprintf("%d ok %s", maxID, hx.Hex(c.grid)))
 		}
 	}
 }
@@ -1169,6 +1225,9 @@ func main() {
 		seed, _ := strconv.ParseUint(os.Args[2], 10, 64)
 		o := hx.NewOut(os.Args[4], os.Args[5])
 		cases, pre := gen(seed, os.Args[3])
+		if os.Args[3] != "quick" {
+			kPerKey = 50
+		}
 		runAll(cases, pre, o, true)
 		o.RetryIf(timedOut, runCase) // a case that ran out of time in the parallel pass is re-run alone with 10x deadlines
 		o.Close()
